@@ -9,6 +9,7 @@ def main(tier):
     rep.analysed["tree_hash"] = P.tree_hash
     kernels.bezier_algebra(P, rep)
     kernels.bezier_record(P, rep)
+    rep.attempt(kernels.newton_objective, P, rep)     # what the search minimises is the distance to the point it reports
     kernels.acos_clamp(P, rep)
     from ..rules import frame as _frame
     rep.attempt(_frame.great_circle, P, rep)     # the value under the clamp is the cosine of the central angle
@@ -17,13 +18,13 @@ def main(tier):
     rep.attempt(_frame.conversion_paths, P, rep)     # ... on every path, in all octants and near the poles
     kernels.point_kernels(P, rep)
     footprint.polygon_boundary(P, rep)
-    rep.assumptions.append("nearest-ness of the kd search result, polygon exactness, Newton convergence are NOT decided (numeric); the conversion round trip is decided "
+    rep.assumptions.append("nearest-ness of the kd search result, polygon exactness, convergence of the Newton iteration (that it ends at the global minimum of its objective) are NOT decided (numeric); the conversion round trip is decided "
                            "as an algebraic identity only (no rounding)")
     # the answer does not depend on what was queried before (no cache that outlives a query: a necessary condition for a
     # statement about 'all worlds and all points', which includes a second world in the same process)
     pure.run(P, rep, pure.query_roots(P))
     rep.explanation = ("Computer-algebra identity between the closest-point search's cubic coefficients and the Bernstein form evaluated by "
-                       "operator(), interval check of the acos clamp, structure of the kd-tree search (near child unconditional, far child "
+                       "operator(), the objective of that search as the (squared / haversine) distance to the reported point with its two derivatives, interval check of the acos clamp, structure of the kd-tree search (near child unconditional, far child "
                        "pruned on the split-axis difference, same mid in build and search), Cartesian<->spherical round trip on every path, "
                        "great-circle cosine, closed forms of the Point kernels, boundary and winding rules of the polygon test.")
     return rep.finish()
